@@ -338,6 +338,7 @@ func (c *Conn) OpenUpstream(ctx context.Context, sessionID string, opts ...Upstr
 		eventDispatcher:      newEventDispatcher(),
 
 		connState:               c.state,
+		connGeneration:          c.state.Reconnects(),
 		explicitlyFlushCh:       make(chan (<-chan struct{})),
 		explicitlyFlushResultCh: make(chan error),
 		Config:                  upconf,
@@ -380,6 +381,7 @@ func (c *Conn) OpenUpstream(ctx context.Context, sessionID string, opts ...Upstr
 					return
 				}
 
+				u.connGeneration = c.state.Reconnects()
 				if err := u.resume(c.wireConn); err != nil {
 					u.logger.Errorf(ctx, "failed to resume upstream: %+v", err)
 					return
@@ -500,9 +502,10 @@ func (c *Conn) OpenDownstream(ctx context.Context, filters []*message.Downstream
 
 		logger: c.logger,
 
-		connStatus: c.state,
-		state:      newStreamState(),
-		Config:     downconf,
+		connStatus:     c.state,
+		connGeneration: c.state.Reconnects(),
+		state:          newStreamState(),
+		Config:         downconf,
 	}
 	go func() {
 		defer c.state.cond.Broadcast()
@@ -539,6 +542,7 @@ func (c *Conn) OpenDownstream(ctx context.Context, filters []*message.Downstream
 					return
 				}
 
+				down.connGeneration = c.state.Reconnects()
 				if err := down.resume(c); err != nil {
 					down.logger.Errorf(ctx, "Failed to resume downstream: %+v", err)
 					return
